@@ -21,7 +21,13 @@ THEOREMS = [
     "GitAi.Tracker.witness_roundtrip_human",
     "GitAi.Tracker.witness_roundtrip_overlap",
     "GitAi.Tracker.identity_update",
-    "GitAi.Tracker.identity_keeps_lines_partial",
+    "GitAi.Tracker.identity_keeps_lines",
+    "GitAi.Tracker.identity_keeps_cover",
+    "GitAi.Tracker.no_panic_all",
+    "GitAi.Tracker.in_bounds_all",
+    "GitAi.Tracker.on_boundaries_all",
+    "GitAi.Tracker.witness_identity_out_of_range_order",
+    "GitAi.Tracker.witness_identity_inverted",
     "GitAi.Tracker.witness_identity_zero_length",
     "GitAi.Tracker.witness_identity_ts_tie",
     "GitAi.Tracker.witness_identity_overrode_order",
